@@ -187,7 +187,7 @@ Lemma step_deq_shape s e s' : step_deq s e = Some s' ->
     s' = BC (conn_no s) se (clos s) (gproc s) (gdeq s) (gack s) (gcl s) (ph s) (pp s) d (ap s) (lp s)
             dy (will s) (cw s) (cpp s) (cps s) t1 t2 t3 (ackq s).
 Proof.
-  intros H. unfold step_deq, take_deq in H. destruct (dp s) eqn:Edp; destruct e; try discriminate H; bm H; inv_some H;
+  intros H. unfold step_deq, take_deq, guard in H. destruct (dp s) eqn:Edp; destruct e; try discriminate H; bm H; inv_some H;
     dbc s; sfu; eauto 10.
 Qed.
 
@@ -452,3 +452,18 @@ Lemma s_in_sess_save_out s p : s_in (sess (sess_save s Outgoing p)) = s_in (sess
 Proof. reflexivity. Qed.
 Lemma s_in_sess_delete_out s i : s_in (sess (sess_delete s Outgoing i)) = s_in (sess s).
 Proof. reflexivity. Qed.
+
+Lemma aget_adel_some {A} (l : list (N * A)) k k' v : aget (adel l k) k' = Some v -> aget l k' = Some v /\ k' <> k.
+Proof.
+  intros H. destruct (N.eq_dec k' k) as [->|Hne].
+  - rewrite aget_adel_eq in H. discriminate H.
+  - rewrite aget_adel_ne in H by exact Hne. split; assumption.
+Qed.
+
+Lemma aget_in {A} (l : list (N * A)) k v : aget l k = Some v -> In (k, v) l.
+Proof.
+  induction l as [|[j w] l IH]; cbn [aget]; [discriminate|].
+  destruct (k =? j) eqn:E.
+  - intros H. injection H as ->. apply N.eqb_eq in E. subst. left; reflexivity.
+  - intros H. right. apply IH, H.
+Qed.
